@@ -532,6 +532,7 @@ func c15Scenario1(r *vlib.Run, sc c15Scenario, maxPoints int) {
 		"first_points": fmt.Sprint(points[:min(len(points), 8)])})
 	if r.Thorough() || sc.Rows <= 3 {
 		c15Strace(r, sc, base, gen, header, oldSet, newSet)
+		c15WriteFaults(r, sc, base, gen, header, oldSet, newSet)
 	}
 }
 
@@ -540,19 +541,34 @@ func c15Scenario1(r *vlib.Run, sc c15Scenario, maxPoints int) {
 // per thread, so the position actually hit (number of syscalls touching the
 // four paths that had started) is read back from the strace log.
 func c15Strace(r *vlib.Run, sc c15Scenario, base string, gen int, header string, oldSet, newSet map[string]int) {
+	c15StraceMode(r, sc, base, gen, header, oldSet, newSet, "kill")
+}
+
+// c15WriteFaults: the same enumeration with a fault instead of a kill: from
+// the N-th write on, every write to one of the four paths fails with ENOSPC
+// (a disk running full). The run may fail; what it leaves behind is judged
+// like after a kill: the outfile holds a complete old or new result.
+func c15WriteFaults(r *vlib.Run, sc c15Scenario, base string, gen int, header string, oldSet, newSet map[string]int) {
+	c15StraceMode(r, sc, base, gen, header, oldSet, newSet, "enospc")
+}
+
+func c15StraceMode(r *vlib.Run, sc c15Scenario, base string, gen int, header string, oldSet, newSet map[string]int, mode string) {
 	if _, err := exec.LookPath("strace"); err != nil {
 		r.Count("strace_unavailable", 1)
 		return
 	}
-	d := base + "-strace"
+	d := base + "-strace-" + mode
 	defer os.RemoveAll(d)
 	out := filepath.Join(d, "result.csv")
 	calls := "openat,write,rename,renameat,renameat2,unlink,unlinkat"
 	mk := func(n int) []string {
 		a := []string{"strace", "-f", "-o", filepath.Join(d, "strace.log"), "-P", out, "-P", out + ".tmp", "-P", out + ".query", "-P", out + ".query.tmp",
 			"-e", "trace=" + calls}
-		if n > 0 {
+		if n > 0 && mode == "kill" {
 			a = append(a, "-e", fmt.Sprintf("inject=%s:signal=SIGKILL:when=%d", calls, n))
+		}
+		if n > 0 && mode == "enospc" {
+			a = append(a, "-e", fmt.Sprintf("inject=write:error=ENOSPC:when=%d+", n))
 		}
 		return a
 	}
@@ -586,6 +602,15 @@ func c15Strace(r *vlib.Run, sc c15Scenario, base string, gen int, header string,
 	if sc.Interim && budget > 24 {
 		budget = 24
 	}
+	if mode == "enospc" {
+		budget = K + 2
+		if !r.Thorough() && budget > 30 {
+			budget = 30
+		}
+		if budget > 250 {
+			budget = 250
+		}
+	}
 	for n := 1; n <= budget && len(hitPos) < K; n++ {
 		before := c15Prepare(r, d, sc)
 		res, _ := c15Run(r, d, sc, gen, "", nil, mk(n))
@@ -597,15 +622,22 @@ func c15Strace(r *vlib.Run, sc c15Scenario, base string, gen int, header string,
 			continue // N beyond what any thread issued: complete run
 		}
 		pos := countTraced()
+		if mode == "enospc" {
+			pos = n // the run goes on after the fault: the position is the injection count itself
+		}
 		fresh := !hitPos[pos]
 		hitPos[pos] = true
 		key := ""
 		if fresh && pos >= 4 {
-			key = fmt.Sprintf("strace|%s|%d", sc.Name, pos)
+			key = fmt.Sprintf("strace-%s|%s|%d", mode, sc.Name, pos)
 		}
 		r.Eval(key)
 		content, err := os.ReadFile(out)
 		kp := fmt.Sprintf("strace: SIGKILL at path syscall #%d of %d", pos, K)
+		if mode == "enospc" {
+			kp = fmt.Sprintf("strace: every write to the outfile paths fails with ENOSPC from the %d-th on (per thread; %d path syscalls in a fault-free run)", n, K)
+			r.Count("write_fault_runs_that_failed", 1)
+		}
 		if sc.Append {
 			if why := c15CheckAppend(before, content, header); why != "" {
 				r.Violation("append-outfile-damaged", map[string]interface{}{"scenario": sc.Name, "kill_point": kp, "why": why,
@@ -624,6 +656,10 @@ func c15Strace(r *vlib.Run, sc c15Scenario, base string, gen int, header string,
 				r.Violation("query-file-does-not-hold-the-query", map[string]interface{}{"scenario": sc.Name, "kill_point": kp, "query_file": vlib.Trunc(string(q), 400)})
 			}
 		}
+	}
+	if mode == "enospc" {
+		r.Count("write_fault_positions_tried", len(hitPos))
+		return
 	}
 	r.Count("strace_positions_total", K)
 	r.Count("strace_positions_hit", len(hitPos))
